@@ -90,6 +90,23 @@ func genC19(t *rapid.T) c19Case {
 			}
 		default:
 			v := genStandaloneValue(t)
+			if rapid.IntRange(0, 11).Draw(t, "bigvalue") == 0 {
+				// a big report (64 KiB and more, sizes on and off block boundaries) and, as the changed value, the same text
+				// with ONE byte altered at the start, in the middle, near or at the end: same length, same everything else
+				size := rapid.SampledFrom([]int{65536, 65537, 70001, 98304, 100003, 131072}).Draw(t, "bigsize")
+				var sb strings.Builder
+				for i := 0; sb.Len() < size; i++ {
+					fmt.Fprintf(&sb, "row %06d,%s\n", i, strings.Repeat("x", i%37))
+				}
+				big := sb.String()[:size]
+				pos := rapid.SampledFrom([]int{0, size / 2, size - 1, size - 2, size - 100, 32768, 65535}).Draw(t, "bigpos")
+				alt := []byte(big)
+				alt[pos] ^= 0x01
+				cc.Call = Call{API: "ssnap", Vals: []Val{strVal(big)}}
+				cc.New = &Call{API: "ssnap", Vals: []Val{strVal(string(alt))}}
+				c.Calls = append(c.Calls, cc)
+				continue
+			}
 			cc.Call = Call{API: "ssnap", Vals: []Val{v}}
 			if rapid.Bool().Draw(t, "hasnew") {
 				w := genStandaloneValue(t)
@@ -302,6 +319,10 @@ func classifyC19(c c19Case) ([]string, bool) {
 			}
 			if txt == "" {
 				cls = append(cls, "empty_value")
+				nt = true
+			}
+			if len(txt) >= 65536 {
+				cls = append(cls, "value_of_64KiB_or_more_with_a_one_byte_change")
 				nt = true
 			}
 			for _, l := range strings.Split(txt, "\n") {
